@@ -1,13 +1,18 @@
 #!/bin/bash
-# usage: tools/try_mutant.sh <patch.diff> <PROP> [tier]   -- apply a seeded change to /repo, run a check, undo it
+# usage: tools/try_mutant.sh <patch.diff> <PROP>[,<PROP>...] [tier]
+# Apply a seeded change to /repo, run the given checks (each rebuilds from the working tree), undo it.
 set -u
-patch="$1"; prop="$2"; tier="${3:-quick}"
+patch="$1"; props="$2"; tier="${3:-quick}"
 cd /repo || exit 2
 if ! git diff --quiet; then echo "repo dirty"; exit 2; fi
 git apply "$patch" || { echo "patch does not apply"; exit 2; }
 cd /verif
-./check "$prop" "$tier" > /tmp/try_mutant.out 2>&1; rc=$?
+worst=0
+for prop in ${props//,/ }; do
+  ./check "$prop" "$tier" > /tmp/try_mutant.$prop.out 2>&1; rc=$?
+  echo "--- $prop exit=$rc"
+  grep -E "^(VIOLATION|HARNESS-ERROR|violation detail)" /tmp/try_mutant.$prop.out | cut -c1-300 | head -6
+  [ $rc -gt $worst ] && worst=$rc
+done
 git -C /repo checkout -- . ; git -C /repo clean -fdq -- . 2>/dev/null; ./check build >/dev/null 2>&1
-grep -E "^(VIOLATION|KNOWN-FINDING|HARNESS-ERROR|violation detail)" /tmp/try_mutant.out | cut -c1-300 | head -12
-echo "exit=$rc"
-exit $rc
+exit $worst
